@@ -95,6 +95,23 @@ def run(chk):
         chk.coverage['class_sweep'] = {'classes': len(vectors), 'objects': evals,
                                        'note': 'objects obtained by parsing the accepted vectors of the repository tests'}
 
+    def sweep_nested():
+        """the values nested in those objects, each against the parser of its own class"""
+        vectors = sweep.library_vectors()
+        n = 0
+        for cls in sorted(vectors, key=sweep.qualname):
+            name = sweep.qualname(cls)
+            for v in list(vectors[cls]) + rt.extra_vectors(name, rng):
+                try:
+                    obj, _ = cls.parse_immutable(v)
+                except Exception:  # pylint: disable=broad-except
+                    continue
+                for tname, path, pred, detail in rt.nested_failures(obj):
+                    n += 1
+                    yield name, v, tname, path, pred, detail
+                n += 1
+        chk.coverage['nested_values'] = n
+
     def search(_br):
         for name, v, pred, detail in sweep_originals():
             key = rt.finding_key(family(name), name, pred, 'orig', v)
@@ -162,6 +179,13 @@ def run(chk):
         chk.violation('%s with %s replaced: %s' % (name, field, detail),
                       {'class': name, 'input': v.hex(), 'field': field, 'candidate': idx, 'predicate': 'constructed-' + pred}, key, True)
     chk.coverage['constructed_objects'] = getattr(objgen.sweep_constructed, 'count', 0)
+    seen_n = set()
+    for name, v, tname, path, pred, detail in sweep_nested():
+        key = 'nested/%s/%s' % (family(tname), pred)
+        if key in seen_n:
+            continue
+        seen_n.add(key)
+        chk.violation('%s%s: %s' % (name, path, detail), {'class': name, 'input': v.hex(), 'nested': tname, 'path': path, 'predicate': pred}, key, True)
     seen = set()
     for name, v, pred, detail in sweep_originals():
         key = rt.finding_key(family(name), name, pred, 'orig', v)
@@ -187,7 +211,15 @@ def run(chk):
 def replay(path):
     with open(path) as f:
         r = json.load(f)
-    if 'class' in r:
+    if 'nested' in r:
+        mod, q = r['class'].rsplit('.', 1)
+        cls = sweep.resolve(mod, q)
+        obj, _ = cls.parse_immutable(bytes.fromhex(r['input']))
+        fails = [(t, pa, p, d) for t, pa, p, d in rt.nested_failures(obj) if t == r['nested'] and p == r['predicate']]
+        for t, pa, p, d in fails:
+            print('%s%s: %s' % (q, pa, d))
+        ok = not fails
+    elif 'class' in r and not str(r.get('predicate', '')).startswith('constructed-'):
         mod, q = r['class'].rsplit('.', 1)
         cls = sweep.resolve(mod, q)
         fails = list(rt.roundtrip_failures(cls, bytes.fromhex(r['input'])))
